@@ -40,21 +40,18 @@ var c16CmdNames = []string{"FETCH", "STORE", "COPY", "MOVE", "SEARCH", "UID EXPU
 func (C16) Generate(r *core.Rand, tier string, idx int) *core.Scenario {
 	sc := &core.Scenario{Property: "C16", Cfg: map[string]int{}}
 	sc.Cfg["nopar"] = r.Intn(2)
-	// input classes that hit separately reported defects are enabled in a minority of runs
-	if r.P(1, 6) {
-		sc.Cfg["wrap32"] = 1 // numbers >= 2^32 (narrowing to 32 bits on resolution)
+	// input classes whose defects were repaired (see known_findings.json): each in half of the runs
+	//   wrap32          numbers >= 2^32 (narrowing to 32 bits on resolution)
+	//   wrap64          numbers >= 2^64 (ParseNumber overflow)
+	//   searchbeyond    SEARCH sequence-set key with numbers beyond the count / empty mailbox
+	//   uidsearchempty  SEARCH UID key against an empty view
+	for _, k := range []string{"wrap32", "wrap64", "searchbeyond", "uidsearchempty"} {
+		if r.P(1, 2) {
+			sc.Cfg[k] = 1
+		}
 	}
-	if r.P(1, 6) {
-		sc.Cfg["wrap64"] = 1 // numbers >= 2^64 (ParseNumber overflow)
-	}
-	if r.P(1, 6) {
-		sc.Cfg["searchbeyond"] = 1 // SEARCH sequence-set key with numbers beyond the count / empty mailbox
-	}
-	if r.P(1, 6) {
-		sc.Cfg["uidsearchempty"] = 1 // SEARCH UID key against an empty view
-	}
-	if r.P(1, 8) {
-		sc.Cfg["dupset"] = 1 // COPY/MOVE with a set that names a message twice (finding F03)
+	if r.P(1, 2) {
+		sc.Cfg["dupset"] = 1 // COPY/MOVE with a set that names a message twice (finding F03, repaired)
 	}
 	if r.P(1, 8) {
 		sc.Cfg["samedst"] = 1 // COPY and MOVE share their destination mailbox
